@@ -350,8 +350,20 @@ func Grammar(rng *rand.Rand) *Scn {
 	n := 1 + rng.Intn(12)
 	for i := 0; i < n; i++ {
 		var s string
-		terms := []string{"\x1b\\", "\x07", "\x18", "\x1a", "\x1b\\", "\x1bB", "\x1b[1m"}
-		switch rng.Intn(17) {
+		// ESC ESC \: the first ESC ends the string, the second begins a complete ESC \ of its own
+		terms := []string{"\x1b\\", "\x07", "\x18", "\x1a", "\x1b\\", "\x1bB", "\x1b[1m", "\x1b\x1b\\", "\x1b\n\\"}
+		switch rng.Intn(19) {
+		case 17: // a device control string abandoned in its header by a non-ASCII character; what follows
+			// (text, and a complete ESC \ near or far) must not be disturbed by it
+			s = "\x1bP" + []string{"", randParams(rng), "1"}[rng.Intn(3)] + randInter(rng) +
+				[]string{"\u00e9", "\u4e16", "\xff", "\u0600", "\U0001f600"}[rng.Intn(5)]
+			for k := rng.Intn(4); k > 0; k-- {
+				s += []string{"h", "i", " ", "\u00e9", "q", "1", ";", "$"}[rng.Intn(8)]
+			}
+			s += []string{"\x1b\\", "\x1b\\", "", "\x1b\x1b\\", "\x07", "\x18\x1b\\", "\x1b[1m\x1b\\"}[rng.Intn(7)]
+		case 18: // any string, then ESC ESC \ (or ESC, a C0, \)
+			s = []string{"\x1b]", "\x1bPq", "\x1bP1$r", "\x1b_", "\x1b^", "\x1bX", "\x1bP", "\x1bP1:", "\x1b]\x07", ""}[rng.Intn(10)] +
+				randPayload(rng) + []string{"\x1b\x1b\\", "\x1b\x1b\x1b\\", "\x1b\x1b\\\x1b\\", "\x1b\n\x1b\\"}[rng.Intn(4)]
 		case 14: // a lone ESC \ (the Alt+\ key, or a string terminator without a string)
 			s = "\x1b\\"
 		case 15: // a device control string cut short in its prefix, or one that is ignored (':' among the parameters)
@@ -372,7 +384,7 @@ func Grammar(rng *rand.Rand) *Scn {
 			}
 			s = "\x1b[" + priv + randParams(rng) + randInter(rng) + randFinal(rng)
 		case 2:
-			s = "\x1b]" + randPayload(rng) + []string{"\x07", "\x1b\\", "\x18", "\x1a", "\x1bA", "\x1b[1m"}[rng.Intn(6)]
+			s = "\x1b]" + randPayload(rng) + []string{"\x07", "\x1b\\", "\x18", "\x1a", "\x1bA", "\x1b[1m", "\x1b\x1b\\"}[rng.Intn(7)]
 		case 3:
 			s = "\x1bP" + randParams(rng) + randInter(rng) + randFinal(rng) + randPayload(rng) + []string{"\x1b\\", "\x18", "\x1b\\", "\x1bB"}[rng.Intn(4)]
 		case 4:
@@ -458,6 +470,11 @@ func Fixed() []*Scn {
 		"\x1b[38:2::1:2:3m", "\x1b[;m", "\x1b[1;;3m", "\x1b[5:m", "\x1b[?1;2$y", "\x1bP1$r2 q\x1b\\", "\x1bP+q524742\x1b\\",
 		"\x1b[\xc3\xa9A", "\x1b]8;;http://example.com\x1b\\", "\x1b[1;2;3;4;5;6;7;8;9;10;11;12;13;14;15;16;17;18m",
 		"e\xcc\x81", "\x1bOP", "\x1b\x7f", "\x1b(B", "\x1b[1\x1b[2J", "\x1b[1\x182J",
+		// a DCS abandoned in its header by a non-ASCII character, a complete ESC \ downstream
+		"\x1bP1\xc3\xa9hi\x1b\\x", "\x1bP$\xc3\xa9hi\x1b\\x", "\x1bP\xc3\xa9hi\x1b\\x", "\x1bP1\xc3\xa9\x1b\\x", "\x1bP1\xc3\xa9\x1b[m\x1b\\",
+		// a string ended by ESC, then a second ESC beginning ESC \; the same with a C0 or a sequence in between
+		"\x1b]a\x1b\x1b\\x", "\x1bPq\x1b\x1b\\x", "\x1b_a\x1b\x1b\\x", "\x1bXa\x1b\x1b\\x", "\x1b^a\x1b\x1b\\x", "\x1bP1\x1b\x1b\\x",
+		"\x1bP1:q\x1b\x1b\\x", "\x1b]a\x1b\n\\", "\x1b]a\x1bA\x1b\\", "\x1b\x1b\\", "\x1b]a\x1b\x1b\x1b\\",
 	} {
 		out = append(out, mk("fixed", []byte(s), nil))
 		if len(s) > 2 {
